@@ -10,3 +10,5 @@ import QV.Properties.C20
 import QV.Properties.C21
 import QV.Properties.C22
 import QV.Properties.C17
+import QV.Generated.ZoneFileDispatch
+import QV.Properties.C24
